@@ -503,7 +503,11 @@ class Bits:
         elif isinstance(s, io.BytesIO):
             self._bitstore = BitStore.frombytes(s.getvalue())
         elif isinstance(s, io.BufferedReader):
-            self._setfile(s.name)
+            if isinstance(getattr(s, 'name', None), (str, bytes, pathlib.PurePath)):
+                self._setfile(s.name)
+            else:
+                # Not a named file, so it can't be memory mapped. Read the data instead.
+                self._bitstore = BitStore.frombytes(s.read())
         elif isinstance(s, bitarray.bitarray):
             self._bitstore = BitStore(s)
         elif isinstance(s, array.array):
@@ -541,7 +545,11 @@ class Bits:
             return
 
         if isinstance(s, io.BufferedReader):
-            self._setfile(s.name, length, offset)
+            if isinstance(getattr(s, 'name', None), (str, bytes, pathlib.PurePath)):
+                self._setfile(s.name, length, offset)
+            else:
+                # Not a named file, so it can't be memory mapped. Read the data instead.
+                self._setbytes_with_truncation(s.read(), length, offset)
             return
 
         if isinstance(s, (str, Bits, bytes, bytearray, memoryview, io.BytesIO, io.BufferedReader,
